@@ -4,6 +4,7 @@ From Coq Require Import QArith Qcanon ZArith List Bool Sorted String.
 Require Import CGT.Model.Num CGT.Model.Ledger CGT.Model.Match CGT.Model.Validate
                CGT.Proofs.ValidateFacts CGT.Proofs.MatchInv CGT.Proofs.Examples
                CGT.Model.Dsl CGT.Model.Json CGT.Model.Cli CGT.Proofs.CliFacts.
+Require CGT.Model.Report CGT.Model.Fx CGT.Model.Pipeline CGT.Proofs.CliFiles CGT.Proofs.CliPipeline.
 Import ListNotations.
 Open Scope Qc_scope.
 
@@ -107,3 +108,14 @@ Example C15_cli_applies :
   ok (c15_fs []) [T "a.cgt"%string] None Pdf None None = ([Write (T "a.pdf"%string) (T "x"%string); Out (T "PDF written to a.pdf"%string ++ NL)], Exit0) /\
   ok (c15_fs [T "a.pdf"%string]) [T "a.cgt"%string] None Pdf None None = ([], ExitErr).
 Proof. repeat split; vm_compute; reflexivity. Qed.
+
+(* The command layer over the models of the computations themselves: with the DSL reader model as the parser and the models' conversion, matcher and
+   summaries as the calculator, `report` on any files is the pipeline (Model/Pipeline.v) applied to the files' contents joined by a newline, followed by
+   the chosen formatter and the single output - for any rate loader, configuration loader and formatters.  Together with C15_cli_failure_has_no_effect
+   and C15_cli_success_is_complete: whatever the pipeline refuses (a line that does not parse, a missing rate, an uncovered sale, an over-large capital
+   return, an unconfigured year) leaves standard output and every file untouched. *)
+Theorem C15_cli_report_is_pipeline : forall valid_cur load_fx load_cfg fmt_plain fmt_json fmt_pdf fs files year fmt output fx,
+  report_cmd (CliFiles.parse_opt valid_cur) load_fx load_cfg CliPipeline.calc_of_models fmt_plain fmt_json fmt_pdf fs files year fmt output fx =
+  report_cmd (fun s => Some s) load_fx load_cfg (CliPipeline.calc_of_pipeline valid_cur) fmt_plain fmt_json fmt_pdf fs files year fmt output fx.
+Proof. exact CliPipeline.report_is_pipeline. Qed.
+Print Assumptions C15_cli_report_is_pipeline.
